@@ -195,7 +195,7 @@ def execute_twin(sc, delay=0.01, timeout=8.0):
 
         def call(i, ids):
             try:
-                barrier.wait(5)
+                barrier.wait(60)
                 r = ws[i % 2].run([make_pub(kinds[i % 2], j) for j in ids]).result()
                 res[i] = ["ok", [pr.metadata.get("id") for pr in r]]
             except Exception as e:  # noqa: BLE001
@@ -241,7 +241,7 @@ def execute(sc, waiting=None, delay=0.01, timeout=8.0):
                 import pickle
 
                 mine = pickle.loads(pickle.dumps(w)) if copies and i % 2 == 1 else w
-                barrier.wait(5)
+                barrier.wait(60)
                 if sc.get("reassign") and i % 2 == 1:
                     # a live wrapper gets its constructor parameter assigned again (same value) while other callers are inside it
                     mine.waiting_duration = waiting
